@@ -357,7 +357,20 @@ def check_remove(ctx, tu, info, f):
         dom = False
         for bid, blk in f.blocks.items():
             c = blk.get('cond')
-            if c and f.strip_all_casts(c) == e and edge_dominates(f, bid, 'true', f.pos(rm[0])):
+            if not c or len(blk['succ']) != 2:
+                continue
+            x = f.strip_all_casts(c)
+            neg = False
+            while f.nodes[x]['cls'] == 'UnaryOperator' and f.nodes[x].get('op') == '!':
+                neg = not neg
+                x = f.strip_all_casts(f.kids(x)[0])
+            # the test may read a local const bool that holds the helper's result
+            if f.nodes[x]['cls'] == 'DeclRefExpr' and f.decl(x).get('kind') == 'var':
+                vd = f.var_decls().get(f.decl(x)['id'])
+                vt = f.tu.type(vd['t']) if vd else None
+                if vd and vd.get('init') and vt and vt.get('const') and not vt.get('ref'):
+                    x = f.strip_all_casts(vd['init'])
+            if x == e and edge_dominates(f, bid, 'false' if neg else 'true', f.pos(rm[0])):
                 dom = True
         ok = dom
         # handle passed to both is the function's handle parameter
